@@ -62,6 +62,11 @@ def check(ctx, F):
     C01.check_exit_enter(sub, F)
     C01.check_switch(sub, F)
     check_cs_dispatch(ctx, F)
+    # O_::deepEnter / deepReenter clear the region's requested-prong view: one unit too many wipes the neighbouring registry byte (another region's
+    # requested bits, or compoActive[0]) - shared instances of C11.views
+    if any(bb.get("cls") == "Bits" and bb["name"] == "clear" for bb in F.bodies.values()):
+        from . import C11
+        C11.check_views(ctx, F, rule="C03.pairing")
     check_callers(ctx, F)
     check_injection_names(ctx, F)
     check_activation(ctx, F)
